@@ -2,7 +2,7 @@
     Only statements live here; each is closed by [exact] of a lemma proved elsewhere. *)
 From Coq Require Import List ZArith Sorted.
 From Coq Require String.
-From V Require Import Gen.Params PktProt.PktNum PktProt.PktNumProofs PktProt.KeyPhase PktProt.KeyPhaseProofs PktProt.KeyDerive PktProt.KeyDeriveProofs PktProt.KeyPhaseRun PktProt.KeyPhaseWindow PktProt.KeyPhaseSys PktProt.KeyPhaseSysProofs PktProt.KeyPhaseExamples PktProt.Sha256 PktProt.InitialKeys PktProt.InitialKeysProofs Lib.Hex PktProt.Protect PktProt.ProtectProofs PktProt.ProtectExamples.
+From V Require Import Gen.Params PktProt.PktNum PktProt.PktNumProofs PktProt.KeyPhase PktProt.KeyPhaseProofs PktProt.KeyDerive PktProt.KeyDeriveProofs PktProt.KeyPhaseRun PktProt.KeyPhaseWindow PktProt.KeyPhaseSys PktProt.KeyPhaseSysProofs PktProt.KeyPhaseExamples PktProt.Sha256 PktProt.InitialKeys PktProt.InitialKeysProofs PktProt.Aes PktProt.InitialProtect PktProt.InitialProtectExamples PktProt.Retry PktProt.RetryProofs Lib.Hex PktProt.Protect PktProt.ProtectProofs PktProt.ProtectExamples.
 Import ListNotations.
 Open Scope Z_scope.
 
@@ -277,3 +277,45 @@ Example C05_rfc9369_A1 :
     (hx "82db637861d55e1d011f19ea71d5d2a7", hx "dd13c276499c0249d3310652", hx "edf6d05c83121201b436e16877593c3a").
 Proof. exact rfc9369_A1. Qed.
 Print Assumptions C05_rfc9369_A1.
+
+(** RFC 9001 A.2 / A.3 and RFC 9369 A.2 / A.3: the protected client Initial (1200 bytes) and
+    server Initial are reproduced bit for bit inside Coq — HKDF key derivation, AES-128-GCM
+    with nonce = IV xor packet number, AES-ECB header-protection mask with the sample at
+    pn_offset + 4, all in Gallina, instantiating the byte-level Protect model — and opened
+    again by the model's unpacker.  (Header, payload and packet bytes: InitialProtectExamples.v.) *)
+Example C05_rfc9001_A2_client_initial :
+  initial_protect false true rfc_dcid client_initial_version1_hdr client_initial_version1_payload 2 4 = client_initial_version1_packet /\
+  initial_unprotect false true rfc_dcid 18 0 client_initial_version1_packet =
+    UOk (nth 0 client_initial_version1_hdr 0) 2 4 0 client_initial_version1_payload.
+Proof. exact client_initial_version1_ok. Qed.
+Print Assumptions C05_rfc9001_A2_client_initial.
+
+Example C05_rfc9001_A3_server_initial :
+  initial_protect false false rfc_dcid server_initial_version1_hdr server_initial_version1_payload 1 2 = server_initial_version1_packet /\
+  initial_unprotect false false rfc_dcid 18 0 server_initial_version1_packet =
+    UOk (nth 0 server_initial_version1_hdr 0) 1 2 0 server_initial_version1_payload.
+Proof. exact server_initial_version1_ok. Qed.
+Print Assumptions C05_rfc9001_A3_server_initial.
+
+Example C05_rfc9369_A2_client_initial :
+  initial_protect true true rfc_dcid client_initial_version2_hdr client_initial_version2_payload 2 4 = client_initial_version2_packet /\
+  initial_unprotect true true rfc_dcid 18 0 client_initial_version2_packet =
+    UOk (nth 0 client_initial_version2_hdr 0) 2 4 0 client_initial_version2_payload.
+Proof. exact client_initial_version2_ok. Qed.
+Print Assumptions C05_rfc9369_A2_client_initial.
+
+Example C05_rfc9369_A3_server_initial :
+  initial_protect true false rfc_dcid server_initial_version2_hdr server_initial_version2_payload 1 2 = server_initial_version2_packet /\
+  initial_unprotect true false rfc_dcid 18 0 server_initial_version2_packet =
+    UOk (nth 0 server_initial_version2_hdr 0) 1 2 0 server_initial_version2_payload.
+Proof. exact server_initial_version2_ok. Qed.
+Print Assumptions C05_rfc9369_A3_server_initial.
+
+(** Retry integrity tag (RFC 9001 5.8 / RFC 9369 3.3.3) on the same Gallina AES-128-GCM: the
+    code's nonces are the RFC's, and the Appendix A.4 Retry packets get the RFC's tags. *)
+Example C05_retry_rfc :
+  (retry_nonce false = hx "461599d35d632bf2239825bb" /\ retry_nonce true = hx "d86969bc2d7c6d9990efb04a") /\
+  retry_tag false rfc_dcid (hx "ff000000010008f067a5502a4262b5746f6b656e") = hx "04a265ba2eff4d829058fb3f0f2496ba" /\
+  retry_tag true rfc_dcid (hx "cf6b3343cf0008f067a5502a4262b5746f6b656e") = hx "c8646ce8bfe33952d955543665dcc7b6".
+Proof. exact (conj retry_nonce_rfc retry_rfc_A4). Qed.
+Print Assumptions C05_retry_rfc.
